@@ -7,6 +7,12 @@
 (*   Init   scenario start: torrent state, pieces, attackers               *)
 (*   Msg    attacker pe wrote one message of class cls to its socket       *)
 (*   Stop   Torrent.Stop() was called (all peers are closed by design)     *)
+(*   Timer  request-timeout timer of attacker pe:  what = "fire" (the      *)
+(*          driver made sure the timer has been armed: rain has sent a     *)
+(*          request), "snub" (the timer event was handed to the loop, ok =  *)
+(*          1 taken, 0 peer already gone), "wait" / "at" (real time: the   *)
+(*          attacker stayed silent until RequestTimeout -+ delta)          *)
+(*   Disc   attacker pe closed its socket                                  *)
 (*   Obs    observation of attacker pe: alive (socket not closed by rain), *)
 (*          listed (rain still lists the address), pong (answer to the     *)
 (*          barrier ping: 1 yes, 0 closed, -1 silent, -2 no ping sent)     *)
@@ -40,15 +46,15 @@ tvars == <<vars, l, viol, exp, rmode>>
 Trace == ndJsonDeserialize("trace.ndjson")
 Ev == Trace[l]
 
-CfgOf(e) == [n |-> e.n, npe |-> e.npe, maxmsg |-> e.maxmsg, asis |-> FALSE]
-RCfgOf(e) == [n |-> e.n, npe |-> 1, maxmsg |-> e.maxmsg, asis |-> FALSE]
+CfgOf(e) == [n |-> e.n, npe |-> e.npe, maxmsg |-> e.maxmsg, asis |-> FALSE, guard |-> TRUE]
+RCfgOf(e) == [n |-> e.n, npe |-> 1, maxmsg |-> e.maxmsg, asis |-> FALSE, guard |-> TRUE]
 
 Nxt(v) == l' = l + 1 /\ viol' = v
 KeepR == UNCHANGED <<exp, rmode>>
 
 TraceInit ==
     /\ l = 1 /\ viol = "" /\ exp = << >> /\ rmode = "sync"
-    /\ InitWith([n |-> 1, npe |-> 1, maxmsg |-> 65536, asis |-> FALSE], "down")
+    /\ InitWith([n |-> 1, npe |-> 1, maxmsg |-> 65536, asis |-> FALSE, guard |-> TRUE], "down")
     /\ TLCSet(1, 1) /\ TLCSet(2, << >>)
 
 -----------------------------------------------------------------------------
@@ -70,6 +76,21 @@ TrMsg ==
                      ELSE IF ~pr.sync THEN [pr EXCEPT !.clean = FALSE]
                      ELSE After(pr, ts, c, r)]
     /\ UNCHANGED <<cfg, ts, loop, zomb>> /\ Step("recv", Ev.pe, Ev.cls, "none", 0, FALSE)
+    /\ KeepR /\ Nxt("")
+
+\* environment events around the request-timeout timer; no obligation of its own - the crash / hang / honest /
+\* drop-or-handle obligations judge what follows
+TrTimer ==
+    /\ Ev.op = "Timer" /\ Ev.pe \in Peers
+    /\ peer' = [peer EXCEPT ![Ev.pe].tm = CASE Ev.what = "fire" -> "fired" [] OTHER -> "off"]
+    /\ UNCHANGED <<cfg, ts, loop, zomb>> /\ Step(Ev.what, Ev.pe, "", "none", 0, FALSE)
+    /\ KeepR /\ Nxt("")
+
+\* the attacker went away: rain must forget it (seen at the next Obs: alive = listed = 0)
+TrDisc ==
+    /\ Ev.op = "Disc" /\ Ev.pe \in Peers
+    /\ peer' = [peer EXCEPT ![Ev.pe] = Gone]
+    /\ UNCHANGED <<cfg, ts, loop, zomb>> /\ Step("disconnect", Ev.pe, "", "none", 0, FALSE)
     /\ KeepR /\ Nxt("")
 
 TrStop ==
@@ -191,7 +212,7 @@ TrRAlloc ==
 
 TraceNext ==
     /\ l <= Len(Trace)
-    /\ \/ TrInit \/ TrMsg \/ TrStop \/ TrObs \/ TrAdvance \/ TrLoop \/ TrHonest \/ TrProc \/ TrMem \/ TrReconn
+    /\ \/ TrInit \/ TrMsg \/ TrTimer \/ TrDisc \/ TrStop \/ TrObs \/ TrAdvance \/ TrLoop \/ TrHonest \/ TrProc \/ TrMem \/ TrReconn
        \/ TrRInit \/ TrRFeed \/ TrRGot \/ TrREnd \/ TrRAlloc
 
 TraceSpec == TraceInit /\ [][TraceNext]_tvars
